@@ -7,7 +7,9 @@ mod model;
 mod ops;
 mod oracles;
 mod registry;
+mod scanmc;
 mod scen;
+mod tablemc;
 
 use std::sync::Arc;
 
@@ -28,7 +30,10 @@ fn main() {
             if args.len() < 4 {
                 usage();
             }
-            run_hx(&args[2], &args[3])
+            match args[2].as_str() {
+                "C12" => run_tablemc(&args[3]),
+                _ => run_hx(&args[2], &args[3]),
+            }
         }
         "replay" => {
             if args.len() < 3 {
@@ -72,8 +77,10 @@ fn run_hx(prop: &str, tier: &str) -> i32 {
     let mut max_depth = 0usize;
     let mut op_stats: std::collections::BTreeMap<String, (u64, u64)> = Default::default();
     let n_sc = scs.len();
-    for sc in scs {
-        let remaining = (max_wall - start.elapsed().as_secs_f64()).max(1.0);
+    for (sci, sc) in scs.into_iter().enumerate() {
+        // fair share of what is left, so that one large scenario cannot starve the others
+        let left = (n_sc - sci) as f64;
+        let remaining = ((max_wall - start.elapsed().as_secs_f64()) / left).max(1.0);
         let lim = hx::Limits {
             max_nodes,
             max_wall_s: remaining,
@@ -105,6 +112,7 @@ fn run_hx(prop: &str, tier: &str) -> i32 {
             "distinct_outcomes": r.outcomes, "noop_pruned": r.noop_pruned, "max_depth": r.max_depth,
             "capped": r.capped, "wall_s": r.wall_s,
             "budget": serde_json::to_value(sc.budget()).unwrap(),
+            "extra": sc.extra_evidence(),
         }));
         for f in hx::minimal_per_sig(&r.found) {
             all_found.push((sc.clone(), f));
@@ -215,6 +223,93 @@ fn run_hx(prop: &str, tier: &str) -> i32 {
     exit
 }
 
+/// Shared verdict logic: prints KNOWN-FINDING / VIOLATION lines, writes replay files.
+/// `items` = (sig, msg, replay json). Returns (exit code, violations, known).
+fn report(prop: &str, items: Vec<(String, String, serde_json::Value)>) -> (i32, i64, i64) {
+    let known = evidence::load_known();
+    let mut exit = 0;
+    let (mut n_viol, mut n_known) = (0i64, 0i64);
+    let mut seen = std::collections::BTreeSet::new();
+    for (sig, msg, rp) in items {
+        if !seen.insert(sig.clone()) {
+            continue;
+        }
+        if let Some(k) = evidence::is_known(&known, prop, &sig) {
+            println!("KNOWN-FINDING: property={prop} sig={} {}", k.sig, k.text);
+            n_known += 1;
+            continue;
+        }
+        n_viol += 1;
+        let path = evidence::replay_path(prop, &sig);
+        evidence::write_replay(&path, &rp);
+        println!("VIOLATION property={prop} replay={}", path.display());
+        eprintln!("  sig={sig}\n  {msg}");
+        exit = 1;
+    }
+    (exit, n_viol, n_known)
+}
+
+fn run_tablemc(tier: &str) -> i32 {
+    let (max_wall, _) = registry::caps(tier);
+    let o = tablemc::run(tier, threads(), max_wall);
+    // confirm each distinct signature by replaying twice
+    let mut items = vec![];
+    let mut seen = std::collections::BTreeSet::new();
+    let mut exit2 = false;
+    for c in &o.found {
+        if !seen.insert(c.sig.clone()) {
+            continue;
+        }
+        let r1: Vec<String> = tablemc::replay(c).into_iter().map(|x| x.0).collect();
+        let r2: Vec<String> = tablemc::replay(c).into_iter().map(|x| x.0).collect();
+        if r1 != r2 || r1.is_empty() {
+            eprintln!("MACHINERY: tablemc case {} did not replay deterministically ({r1:?} vs {r2:?})", c.sig);
+            exit2 = true;
+            continue;
+        }
+        items.push((c.sig.clone(), c.msg.clone(), serde_json::to_value(c).unwrap()));
+    }
+    let (mut exit, n_viol, n_known) = report("C12", items);
+    if exit2 && exit == 0 {
+        exit = 2;
+    }
+    let _ = std::fs::remove_dir_all(hx::scratch_root());
+    let ev = evidence::Evidence {
+        property: "C12".into(),
+        tier: tier.into(),
+        level: "model_checking".into(),
+        coverage: serde_json::json!({
+            "states": o.tables,
+            "transitions": o.probes,
+            "traces_validated_against_impl": o.recovers,
+            "evaluations": o.tables,
+            "distinct_nontrivial": o.tables,
+            "rule": "every (stream, writer setting) pair of the enumerated stream family x 216 settings is written by the real table::Writer (one distinct table each), recovered under 2 (quick) or 4 (thorough) recover variants and probed: metadata, scan, iter fwd/rev, every bound pair over keys and gaps x next/next_back interleavings, get for every key x seqno",
+            "samples": o.samples,
+            "exhaustive": !o.capped,
+            "capped": o.capped,
+            "streams": o.streams,
+            "settings": o.settings,
+            "tables_written": o.tables,
+            "recovers": o.recovers,
+            "probes": o.probes,
+            "known_findings_matched": n_known,
+        }),
+        assumptions: vec![
+            "bounded: streams of at most 3 (quick: 2, plus a slice of 3) grid entries, 4-5 entry two-key streams (thorough), and a fixed adversarial family".into(),
+            "the stream itself is the specification".into(),
+        ],
+        wall_s: o.wall_s,
+        violations: n_viol,
+    };
+    evidence::write_evidence(&ev);
+    eprintln!(
+        "[tablemc C12 {tier}] streams={} settings={} tables={} recovers={} probes={} violations={n_viol} capped={} wall={:.1}s",
+        o.streams, o.settings, o.tables, o.recovers, o.probes, o.capped, o.wall_s
+    );
+    exit
+}
+
 fn run_replay(path: &str) -> i32 {
     let s = match std::fs::read_to_string(path) {
         Ok(s) => s,
@@ -243,6 +338,21 @@ fn run_replay(path: &str) -> i32 {
                     println!("violation sig={} {}", x.sig, x.msg);
                 }
                 println!("VIOLATION property={} replay={path}", rp.property);
+                1
+            }
+        }
+        Some("tablemc") => {
+            let c: tablemc::Case = serde_json::from_value(v).expect("tablemc case");
+            let r = tablemc::replay(&c);
+            let _ = std::fs::remove_dir_all(hx::scratch_root());
+            if r.is_empty() {
+                println!("no violation on replay");
+                0
+            } else {
+                for (sig, msg) in &r {
+                    println!("violation sig={sig} {msg}");
+                }
+                println!("VIOLATION property={} replay={path}", c.property);
                 1
             }
         }
